@@ -75,6 +75,9 @@ def lit(t):
 
 
 def num_text(x):
+    """Excel's text form of a number: 15 significant digits, E+exponent from 1e15 on"""
+    if isinstance(x, float) or abs(x) >= 10 ** 15:
+        return ('%.15g' % x).replace('e+', 'E+')
     return repr(x)
 
 
@@ -104,7 +107,7 @@ def build(spec):
         return f'B{brow[0]}'
     for q in spec['queries']:
         fn = q['fn']
-        base_tags = [f'fn:{fn}', f'via:{via}', 'empty-text' if L == 0 else 'special-chars' if SPECIAL & set(t) else 'plain-text']
+        base_tags = [f'fn:{fn}', f'via:{via}', 'empty-text' if L == 0 else 'special-chars' if SPECIAL & set(t) else 'plain-text'] + (['multiline'] if '\n' in t else [])
         trig = []
         if wild_lit:
             trig.append('wildcard-literal')
@@ -161,7 +164,7 @@ def build(spec):
                     forms.append('TRUE' if p else 'FALSE')
                 elif isinstance(p, list):
                     # a quotient a/b in brackets: its text form has 15 significant digits and no trailing ".0"
-                    texts.append('%.15g' % (p[0] / p[1]))
+                    texts.append(num_text(p[0] / p[1]))
                     forms.append(f'({p[0]}/{p[1]})')
                 elif isinstance(p, str) and p.startswith('$') and len(p) > 1 and p != '$T':
                     # a number literal written with a superfluous fraction or an exponent: its text form is that of the number
@@ -237,10 +240,16 @@ def strategy():
     text = st.lists(st.sampled_from(ALPHABET), min_size=0, max_size=8).map(''.join)
     plain = st.lists(st.sampled_from(['a', 'b', 'B', 'c', 'A', 'é', ' ']), min_size=1, max_size=8).map(''.join)
 
+    # a text with a line break inside (Alt+Enter): a wildcard stands for it like for any other character
+    multiline = st.tuples(plain, st.lists(st.sampled_from(['a', 'b', 'B', '\n', '2', ' ']), min_size=0, max_size=4).map(''.join), plain).map(
+        lambda p: (p[0].strip() or 'a') + '\n' + p[1] + (p[2].strip() or 'b'))
+
     @st.composite
     def spec(draw):
-        t = draw(st.one_of(text, text, plain))
+        t = draw(st.one_of(text, text, plain, multiline))
         via = draw(st.sampled_from(['cell', 'lit', 'override']))
+        if '\n' in t and via == 'lit':
+            via = 'cell'
         if via == 'cell' and (t == '' or t != t.strip() and False):
             via = 'override'
         if via == 'lit' and '"' in t:
@@ -260,6 +269,9 @@ def strategy():
                 part = st.one_of(st.just('$T'), st.sampled_from(['x', 'Yz', ' ', 'é']), st.integers(-9, 120),
                                  st.sampled_from([1.5, 0.25, 12.125, 3.7]), st.booleans(), st.sampled_from([1, 0]),
                                  st.sampled_from([[3, 3], [1, 2], [0, 5], [1, 3], [2, 3], [10, 4], [7, 7]]),
+                                 # quotients in the decade where the exponent form begins (1e15 .. 1e17)
+                                 st.sampled_from([[10 ** 16, 4], [10 ** 16, 7], [10 ** 16, 8], [10 ** 16, 40], [10 ** 17, 3], [2 * 10 ** 15, 2], [10 ** 15, 3]]),
+                                 st.sampled_from([2.5e15, 1e16 / 7, 1e15, 9.99e14, 1e16, 1.5e20]).map(lambda v: {'$cell': v}),
                                  st.sampled_from(['$2.0', '$10.00', '$1e3', '$2.50', '$0.10', '$12.0']),
                                  st.sampled_from([0, False, '', 0, True, 7, 'w', 1.5]).map(lambda v: {'$cell': v}))
                 qs.append({'fn': fn, 'parts': draw(st.lists(part, min_size=1, max_size=4))})
